@@ -83,6 +83,8 @@ def random_instruction(w: World, sim, vid: str, rng: random.Random):
         r = rng.random()
         if r < 0.12:
             return I.RepositionInstruction(vid, rng.choice(["garbage", "a-b-c", f"{c}-nocell", ""]))
+        if getattr(w, "link_ids", None):
+            return I.RepositionInstruction(vid, rng.choice(w.link_ids))
         return I.RepositionInstruction(vid, f"{c}-{c}")
     if kind == "reserve":
         return I.ReserveBaseInstruction(vid, pick(sorted(sim.bases.keys()), bases_here))
